@@ -104,8 +104,12 @@ def posmc_spaces(prop, tier):
             sig(s, 8)
         for s in (CASTLE_FAMILY[:10] if q else CASTLE_FAMILY):
             sig(s, 2)
-        for s in PROMO_FAMILY if q else PROMO_FAMILY + ["KPkp", "KPPk", "Kkpp", "KRkp", "KQkp", "KPkr", "KPkq", "KBkp", "KNkp", "KPkb", "KPkn"]:
-            sig(s, 16)
+        if q:
+            for s in ["KPkq;files=5", "KQkp;files=5", "KPPk;files=5", "KPkp;files=6", "KRkp;files=5", "KPkr;files=5"]:
+                sig(s, 8)
+        else:
+            for s in PROMO_FAMILY + ["KPkp", "KPPk", "Kkpp", "KRkp", "KQkp", "KPkr", "KPkq", "KBkp", "KNkp", "KPkb", "KPkn"]:
+                sig(s, 16)
         if prop == "C16":
             jobs.append(["encoding"])
             for n in (["startpos", "kiwipete", "promo_knights", "castle_bare", "ep_both"] if q else all_seed_names):
@@ -126,9 +130,9 @@ def posmc_spaces(prop, tier):
     elif prop == "C07":
         for s in MEN3:
             sig(s)
-        for s in (["KBkb", "KNkn", "KNNk", "KBkn", "KQkr", "KRkb", "KPkp"] if q else MEN4):
-            sig(s, 16)
-        for s in DOUBLE_CHECK[:4]:
+        for s in (["KBkb;files=6", "KNNk;files=6", "KBkn;files=6", "KPkp;files=5"] if q else MEN4):
+            sig(s, 8 if q else 16)
+        for s in DOUBLE_CHECK[:3]:
             sig(s, 2)
         for name, (fen, dq, dt) in ARENAS.items():
             jobs.append(["games|%s|%d" % (fen, dq if q else dt)])
@@ -145,4 +149,5 @@ def posmc_spaces(prop, tier):
         for s in ["KPkp", "KPPkp;files=4", "KPkpp;files=4", "KPPkpp;files=3"] + CASTLE_FAMILY[:10] + (["KPPkpp;files=4"] if not q else []):
             sig(s, 16)
         sig("Ke1Ra1Rh1ke8ra8rh8Pp", 8)
+        jobs.append(["vectors"])
     return jobs
